@@ -479,8 +479,11 @@ def readUnion (fuel : Nat) : P Union := do
                     let s ← readStruct fuel
                     pure (UBody.st { s with comment := joinLines st.comments }) : P UBody)
                 let uf : UnionField := { body := body, tags := st.tags, depMsg := st.depMsg, deprecated := st.isDep }
-                -- step over the member's close curly
-                let _ ← pNext
+                -- move off the member's close curly without consuming what follows it
+                (fun t => PR.ok () { t with keep := false } : P Unit)
+                let more ← pNext
+                if !more then fail else do
+                pUnNext
                 skipEolComments fuel
                 optNewline
                 loop f (fields ++ [(idx, uf)]) {}
@@ -586,6 +589,7 @@ def readFileLoop (fuel : Nat) : Nat → TopSt → P File
           readFileLoop fuel f { st with opCode := code }
         else do
           expectAnyOf [.closeSquare]
+          optNewline
           readFileLoop fuel f { st with bitFlags := true }
       | .kEnum =>
         if st.opCode != 0 then fail
